@@ -334,7 +334,7 @@ fn random_attrs(rng: &mut Rng, params: &[Param], kinds: &[Value], spreads: &[Val
     let pick_val = |rng: &mut Rng, p: Option<&Param>| -> Value {
         // bias towards a value of the right kind so that multi-parameter cases get through
         if let Some(p) = p {
-            if rng.chance(1, 2) {
+            if rng.chance(4, 5) {
                 let want = p.declared.or(match p.default_src {
                     Some(d) if d.starts_with('"') => Some("string"),
                     Some("true") | Some("false") => Some("bool"),
@@ -366,7 +366,10 @@ fn random_attrs(rng: &mut Rng, params: &[Param], kinds: &[Value], spreads: &[Val
         rng.pick(kinds).clone()
     };
     for p in params {
-        match rng.below(10) {
+        // a parameter without a default is mostly supplied, so that several-parameter calls get through
+        let roll = rng.below(10);
+        let roll = if roll <= 2 && p.default_src.is_none() && rng.chance(2, 3) { 5 } else { roll };
+        match roll {
             0..=2 => {}
             3..=7 => attrs.push(Attr::Kv(p.name.clone(), pick_val(rng, Some(p)), AttrForm::Expr)),
             8 => attrs.push(Attr::Kv(p.name.clone(), Value::from(*rng.pick(&["lit", "<l>&", ""])), AttrForm::Lit)),
@@ -412,7 +415,12 @@ fn run_iso(iso: &mut Sink, meta: &mut Meta, rng: &mut Rng) {
         }
         v
     };
-    let with_include = rng.chance(1, 2);
+    // where the call site stands: main template, included template, a block of a child
+    // template, the body of another component
+    let shape = match rng.below(8) { 0..=2 => 0, 3..=5 => 1, 6 => 2, _ => 3 };
+    let with_include = shape == 1;
+    let in_block = shape == 2;
+    let in_comp = shape == 3;
     let in_loop = rng.chance(2, 3);
     let ctx_names = pick_names(rng, "cv");
     let glob_names = pick_names(rng, "gv");
@@ -431,14 +439,14 @@ fn run_iso(iso: &mut Sink, meta: &mut Meta, rng: &mut Rng) {
     let mut attrs = Vec::new();
     if params.iter().any(|p| p.name == "a") && rng.chance(3, 4) {
         // the argument may be one of the caller's own variables
-        attrs.push(Attr::Kv("a".into(), val("arg", "a"), AttrForm::Expr));
+        attrs.push(Attr::Kv("a".into(), val("arg", "a"), if in_comp { AttrForm::Lit } else { AttrForm::Expr }));
     }
     if rest.is_some() && rng.chance(1, 2) {
-        attrs.push(Attr::Kv("cv".into(), val("arg", "cv"), AttrForm::Expr));
+        attrs.push(Attr::Kv("cv".into(), val("arg", "cv"), if in_comp { AttrForm::Lit } else { AttrForm::Expr }));
     }
     let body = if rng.chance(1, 3) { Some("BODY".to_string()) } else { None };
 
-    let probes: Vec<String> = pool.iter().map(|s| s.to_string()).chain(["lsv".to_string()]).collect();
+    let probes: Vec<String> = pool.iter().map(|s| s.to_string()).chain(["lsv".to_string(), "bsv".to_string()]).collect();
     let probe_src: String = probes.iter().map(|n| format!("{{{{ {n} | probe }}}}")).collect();
 
     let mut tera = Tera::default();
@@ -462,18 +470,25 @@ fn run_iso(iso: &mut Sink, meta: &mut Meta, rng: &mut Rng) {
     let scope_name = if with_include { "iset" } else { "set" };
     let mut inner = format!("{probe_src}{site}");
     if in_loop {
-        inner = format!("{{% for {} in larr %}}{}{}{{% endfor %}}", loop_names[0], sets(&loop_set_names, "lset"), inner);
+        let over = if in_comp { format!("[\"loop:{}\"]", loop_names[0]) } else { "larr".to_string() };
+        inner = format!("{{% for {} in {over} %}}{}{}{{% endfor %}}", loop_names[0], sets(&loop_set_names, "lset"), inner);
     }
     let caller_src = format!("{}{}", sets(&set_names, scope_name), inner);
     let main_src = if with_include {
         let inc = format!("{{% include \"inc\" %}}");
         let wrapped = if parent_loop { format!("{{% for plv in parr %}}{inc}{{% endfor %}}") } else { inc };
         format!("{}{}", sets(&parent_set_names, "pset"), wrapped)
+    } else if in_block {
+        format!("{{% extends \"base\" %}}{{% block b %}}{caller_src}{{% endblock %}}")
+    } else if in_comp {
+        "{% set msv = \"mset:msv\" %}{% for s in parr %}{{ <Outer /> }}{% endfor %}".to_string()
     } else {
         caller_src.clone()
     };
     let mut tpls = vec![("main".to_string(), main_src.clone())];
     if with_include { tpls.push(("inc".to_string(), caller_src.clone())); }
+    if in_block { tpls.push(("base".to_string(), "{% set bsv = \"bset:bsv\" %}[{% block b %}{% endblock %}]".to_string())); }
+    if in_comp { tpls.push(("outer.html".to_string(), format!("{{% component Outer() %}}{caller_src}{{% endcomponent Outer %}}"))); }
     if let Err(e) = tera.add_raw_templates(tpls) {
         meta.oracle_fail("generator produced an unregistrable iso template", None, json!({"main": main_src, "err": format!("{e}")}));
         return;
@@ -506,7 +521,11 @@ fn run_iso(iso: &mut Sink, meta: &mut Meta, rng: &mut Rng) {
         }
         loops.push(l);
     }
-    let sets_m = if in_loop { mk(&set_names, scope_name) } else { mk(&set_names, scope_name) };
+    let mut sets_m = mk(&set_names, scope_name);
+    if in_block { sets_m.push(("bsv".to_string(), val("bset", "bsv"))); }
+    // a caller that is itself a component body has only its own (empty) context: no caller
+    // context, no global context
+    let (ctx_m, glob_names): (Vec<(String, Value)>, Vec<String>) = if in_comp { (Vec::new(), Vec::new()) } else { (ctx_m, glob_names) };
     let parent = if with_include {
         let pl: Vec<Vec<(String, Value)>> = if parent_loop { vec![vec![("plv".to_string(), val("ploop", "plv"))]] } else { vec![] };
         Some((pl, mk(&parent_set_names, "pset")))
@@ -544,7 +563,7 @@ fn run_iso(iso: &mut Sink, meta: &mut Meta, rng: &mut Rng) {
     }
     if callee.is_panic() { meta.oracle_fail("panic", None, desc.clone()); }
     let visible_in_caller = caller.iter().filter(|v| !v.is_undefined()).count();
-    let tags = [if with_include { "caller:include" } else { "caller:main" }, if in_loop { "caller:in-loop" } else { "caller:no-loop" }];
+    let tags = [["caller:main", "caller:include", "caller:block", "caller:component"][shape], if in_loop { "caller:in-loop" } else { "caller:no-loop" }];
     iso.push(g, desc, visible_in_caller >= 3, None, &tags);
 }
 
